@@ -1260,3 +1260,30 @@ func init() {
 		return nil
 	}
 }
+
+// sort.SearchStrings(a, x): the library's own binary search, with the comparisons on a symbolic x
+// decided by the solver (so an unsorted a misbehaves exactly as it does natively).
+func init() {
+	intrinsics["sort.SearchStrings"] = func(fr *frame, args []value) value {
+		a, _ := args[0].([]value)
+		lo, hi := 0, len(a)
+		for lo < hi {
+			h := int(uint(lo+hi) >> 1)
+			// !(a[h] >= x)  <=>  a[h] < x
+			lt := symBinop(fr, token.LSS, types.Typ[types.String], a[h], args[1])
+			var b bool
+			switch c := lt.(type) {
+			case bool:
+				b = c
+			case *sym:
+				b = fr.i.pc.decide(c.e, fr)
+			}
+			if b {
+				lo = h + 1
+			} else {
+				hi = h
+			}
+		}
+		return lo
+	}
+}
